@@ -1,32 +1,35 @@
 import Lean.Data.Json
 import YModel.JsonUtil
-import YModel.Drv.C19
-/-! Line-protocol driver: one JSON request per input line, one JSON response per output line. -/
-open Lean YModel
+/-! Line-protocol driver loop: one JSON request per input line, one JSON response per line.
+Each property has its own executable (`drv_cXX`, root `YModel/Main/CXX.lean`) so that a model
+file that stops compiling only affects the properties that depend on it. -/
+namespace YModel
+open Lean
 
-def allHandlers : List (String × (Json → J.R Json)) :=
-  YModel.Drv.C19.handlers
+abbrev Handler := Json → J.R Json
 
-def handle (line : String) : Json :=
+def handleLine (hs : List (String × Handler)) (line : String) : Json :=
   match Json.parse line with
   | .error e => J.obj [("ok", false), ("err", s!"parse: {e}")]
   | .ok j =>
     match j.getObjVal? "op" >>= Json.getStr? with
     | .error e => J.obj [("ok", false), ("err", s!"no op: {e}")]
     | .ok op =>
-      match allHandlers.lookup op with
+      match hs.lookup op with
       | none => J.obj [("ok", false), ("err", s!"unknown op {op}")]
       | some h =>
         match h j with
         | .ok r => r.setObjVal! "ok" true
         | .error e => J.obj [("ok", false), ("err", e)]
 
-def main : IO Unit := do
+def runDriver (hs : List (String × Handler)) : IO Unit := do
   let stdin ← IO.getStdin
   let stdout ← IO.getStdout
   repeat
     let line ← stdin.getLine
     if line.isEmpty then break
     if line.trimAscii.isEmpty then continue
-    stdout.putStrLn (Json.compress (handle line))
+    stdout.putStrLn (Json.compress (handleLine hs line))
     stdout.flush
+
+end YModel
